@@ -16,6 +16,9 @@ SAT = ['fn:BoundSet::satisfies', 'fn:Range::satisfies', 'fn:Version::satisfies',
 DESUGAR_FNS = ['caret_desugar', 'partial_desugar', 'tilde_desugar', 'hyphen_desugar'] + ['primitive_desugar_' + op for op in ('Exact', 'GreaterThan', 'GreaterThanEquals', 'LessThan', 'LessThanEquals')]
 DESUGAR = ['clauses:' + f for f in DESUGAR_FNS] + ['fn:Partial::normalize', 'fn:Version::from@m_desugar', 'fn:Version::from@m_version', 'fn:number_check', 'fn:identifier_classify']
 FROM_U64 = ['fn:Version::from@m_version']
+# the representation invariant is ESTABLISHED by everything that builds a Range: the set-operation properties quantify over "ranges obtained
+# from Range::parse or from the operations", so these are obligations of theirs too (not only of C01 / C06)
+WF_EST = ['clausere:#wf$', 'clausere:#small$', 'fn:intersect_all', 'fn:empty_range_desugar', 'fn:range_set_check', 'fn:Range::any', 'fn:Partial::normalize', 'fn:number_check', 'fn:BoundSet::intersect']
 
 TEXT_SHELL = 'winnow text layer (tokenisation of a range / version text into operator + Partial values, `separated`, `alt`, `garbage`) is not under contract: the property is decided at AST level'
 STD = 'std axioms A1-A12 of DESIGN.md 2.4 (Box, cmp::max/min for a lawful Ord, Vec/String ordering, derived impls, Clone, iterator idioms, Hash feed) as listed in coverage.trusted_base'
@@ -51,35 +54,35 @@ PROPS = {
     ),
     'C06': dict(
         title='no panic / overflow / non-termination in the core',
-        obligations=['allexec', 'clausere:#small$', 'fn:lemma_c06_rwf_closed', 'fn:reach_bs_wf', 'fn:reach_overlap', 'mod:m_bound_spec', 'mod:m_range_spec', 'mod:m_order'],
+        obligations=['allexec', 'clausere:#small$', 'clausere:#wf$', 'fn:lemma_c06_rwf_closed', 'fn:reach_bs_wf', 'fn:reach_overlap', 'mod:m_bound_spec', 'mod:m_range_spec', 'mod:m_order'],
         assumptions=[STD, 'parser, fmt, miette, location(): not under contract', 'representation invariant rwf / wf_partial / component bounds as preconditions (established by every constructor under contract)'],
         not_decided=['every string through Version::parse / Range::parse', 'error accessors and diagnostics', 'roughly linear time (no cost model)'],
         witness='c06',
     ),
     'C07': dict(
         title='intersect is set intersection',
-        obligations=ORDER + BOUNDS + RANGE_SPEC + ['fn:BoundSet::intersect', 'fn:Range::intersect', 'fn:lemma_gate_intersect', 'fn:lemma_c07_commutes', 'fn:lemma_c07_idempotent', 'fn:lemma_c07_release_sat', 'fn:lemma_c07_prerelease'],
+        obligations=WF_EST + ORDER + BOUNDS + RANGE_SPEC + ['fn:BoundSet::intersect', 'fn:Range::intersect', 'fn:lemma_gate_intersect', 'fn:lemma_c07_commutes', 'fn:lemma_c07_idempotent', 'fn:lemma_c07_release_sat', 'fn:lemma_c07_prerelease'],
         assumptions=[STD],
         not_decided=[],
         witness='c07',
     ),
     'C08': dict(
         title='difference is set difference',
-        obligations=ORDER + BOUNDS + RANGE_SPEC + ['fn:BoundSet::intersect', 'fn:BoundSet::difference', 'fn:Range::difference', 'fn:Range::intersect', 'fn:lemma_c08_partition', 'fn:lemma_c08_release_sat', 'fn:lemma_c08_disjoint_from_b'],
+        obligations=WF_EST + ORDER + BOUNDS + RANGE_SPEC + ['fn:BoundSet::intersect', 'fn:BoundSet::difference', 'fn:Range::difference', 'fn:Range::intersect', 'fn:lemma_c08_partition', 'fn:lemma_c08_release_sat', 'fn:lemma_c08_disjoint_from_b'],
         assumptions=[STD],
         not_decided=['prerelease membership of a \\ b is decided against the relation rdiff_post (bounds of a, outside the bounds of b, gate of a); that this relation is the intended reading for prereleases is taken from the property text'],
         witness='c08',
     ),
     'C09': dict(
         title='allows_any is overlap',
-        obligations=ORDER + BOUNDS + RANGE_SPEC + ['fn:BoundSet::allows_any', 'fn:Range::allows_any', 'fn:BoundSet::intersect', 'fn:Range::intersect', 'fn:lemma_c09_symmetric', 'fn:lemma_c09_disjoint', 'fn:lemma_c09_touching', 'fn:lemma_c09_common_version'],
+        obligations=WF_EST + ORDER + BOUNDS + RANGE_SPEC + ['fn:BoundSet::allows_any', 'fn:Range::allows_any', 'fn:BoundSet::intersect', 'fn:Range::intersect', 'fn:lemma_c09_symmetric', 'fn:lemma_c09_disjoint', 'fn:lemma_c09_touching', 'fn:lemma_c09_common_version'],
         assumptions=[STD],
         not_decided=[],
         witness='c09',
     ),
     'C10': dict(
         title='allows_all guarantees containment',
-        obligations=ORDER + BOUNDS + RANGE_SPEC + ['fn:BoundSet::allows_all', 'fn:Range::allows_all', 'fn:BoundSet::allows_any', 'fn:Range::allows_any', 'fn:BoundSet::intersect', 'fn:BoundSet::difference', 'fn:Range::difference',
+        obligations=WF_EST + ORDER + BOUNDS + RANGE_SPEC + ['fn:BoundSet::allows_all', 'fn:Range::allows_all', 'fn:BoundSet::allows_any', 'fn:Range::allows_any', 'fn:BoundSet::intersect', 'fn:BoundSet::difference', 'fn:Range::difference',
                                                    'fn:lemma_c10_contained', 'fn:lemma_c10_implies_any', 'fn:lemma_c10_reflexive', 'fn:lemma_c10_difference_none'],
         assumptions=[STD],
         not_decided=[],
@@ -87,21 +90,21 @@ PROPS = {
     ),
     'C11': dict(
         title='min_version is the least satisfying version',
-        obligations=ORDER + BOUNDS + RANGE_SPEC + SAT + ['fn:BoundSet::min_version', 'fn:Range::min_version'] + FROM_U64,
+        obligations=WF_EST + ORDER + BOUNDS + RANGE_SPEC + SAT + ['fn:BoundSet::min_version', 'fn:Range::min_version'] + FROM_U64,
         assumptions=[STD, 'no lower bound has patch == u64::MAX (rpatch_ok; parsed components are <= MAX_SAFE_INTEGER)'],
         not_decided=[],
         witness='c11',
     ),
     'C14': dict(
         title='max_satisfying / min_satisfying',
-        obligations=ORDER + BOUNDS + RANGE_SPEC + SAT + ['fn:Range::max_satisfying', 'fn:Range::min_satisfying', 'fn:lemma_c14_order_independent', 'fn:lemma_c14_order_independent_min'],
+        obligations=WF_EST + ORDER + BOUNDS + RANGE_SPEC + SAT + ['fn:Range::max_satisfying', 'fn:Range::min_satisfying', 'fn:lemma_c14_order_independent', 'fn:lemma_c14_order_independent_min'],
         assumptions=[STD, 'A8: std contract of slice.iter().filter(p).max()/min() (stub whose body is the original expression)'],
         not_decided=['the result is a reference into the slice: proved equal by value to a maximal / minimal satisfying element (last maximal, first minimal), reference identity is not expressible'],
         witness='c14',
     ),
     'C15': dict(
         title='set algebra identities across compositions',
-        obligations=ORDER + BOUNDS + RANGE_SPEC + ['fn:BoundSet::intersect', 'fn:BoundSet::difference', 'fn:Range::intersect', 'fn:Range::difference',
+        obligations=WF_EST + ORDER + BOUNDS + RANGE_SPEC + ['fn:BoundSet::intersect', 'fn:BoundSet::difference', 'fn:Range::intersect', 'fn:Range::difference',
                                                    'fn:lemma_c15_commutative', 'fn:lemma_c15_associative', 'fn:lemma_c15_idempotent', 'fn:lemma_c15_a_minus_a', 'fn:lemma_c15_diff_disjoint', 'fn:lemma_c15_partition', 'fn:lemma_c15_double_difference'],
         assumptions=[STD],
         not_decided=['results are printable and re-parsable (text shell)', 'for prereleases the identities are proved over `within` (bounds) and, where the property says so, over satisfaction with the opt-in gate the operands carry; identities between printed forms are not claimed'],
